@@ -338,6 +338,8 @@ def run(ctx) -> None:
     fl = list(flow.scripts(5 if ctx.thorough else 4))
     resF = pmap(_shard_flow, [(c, st_a) for c in chunks(fl, nproc() * 2)])
     ctx.log(f"part F: {sum(r['n'] for r in resF)} control-flow scripts, last instruction same object vs fresh")
+    from . import c18_cpu
+    ctx.coverage["part_G_runtime_step_splits"] = c18_cpu.run_step_split(ctx, "C07/rust-runtime/step-split")
     K = 12 if ctx.thorough else 8
     resD = pmap(_shard_d, [(lp, st_a, K) for lp in c06.LOOPS])
     nE, vbE = _part_e(st_a)
@@ -409,6 +411,9 @@ def replay(ctx, w) -> Optional[str]:
         for sig, (cnt, wl) in r["vb"].d.items():
             return wl[0][0]
         return None
+    if w.get("cpu"):
+        from . import c18_cpu
+        return c18_cpu.replay(w)
     if part == "F":
         r = _shard_flow(([tuple(w["flow"])], st))
         for sig, (cnt, wl) in r["vb"].d.items():
